@@ -52,3 +52,27 @@ theorem c07_failed_write_contributes_nothing (enc : Val → WR) (validate : Val 
 theorem c07_header_never_changes (enc : Val → WR) (validate : Val → R Bool) (cfg : WCfg) (st : WState) (ops : List Op) :
     ∃ t, (run enc validate cfg st ops).out = st.out ++ t :=
   out_grows enc validate cfg st ops
+
+
+/-- **C07 (re-opening for append).** a writer opened on a stream that already holds a container file written with
+    header `(metadata, sync)` resumes with that file's own sync marker and codec name, whatever `codec`,
+    `sync_marker`, `schema` or `metadata` arguments it is given: a history with re-opens is a history of one writer
+    (`c07_history`) -/
+theorem c07_reopen_resumes (metadata : List (String × Bytes)) (sync area hb : Bytes) (codecName : String)
+    (hw : writeHeader metadata sync = ⟨hb, none⟩) (hsync : sync.length = 16)
+    (hkeys : (metadata.map (·.1)).Nodup) (hlen : metadata.length < Spec.LIMIT)
+    (hsmall : ∀ e ∈ metadata, (utf8Enc e.1).length < Spec.LIMIT ∧ e.2.length < Spec.LIMIT)
+    (hcodec : metadata.lookup "avro.codec" = some (utf8Enc codecName)) :
+    reopen (hb ++ area) = .ok (sync, codecName) := by
+  unfold reopen
+  rw [HeaderProofs.header_roundtrip metadata sync area hb hw hsync hkeys hlen hsmall]
+  simp only [bind, Except.bind, Header.codecName, hcodec, utf8Dec_utf8Enc]
+  rfl
+
+/-- **C07 (append detection).** `_is_appendable`: exactly the seekable streams that are not at position 0, are not
+    the interpreter's `<stdout>` and can be read; a stream that qualifies but cannot be read is an error -/
+theorem c07_appendable_table (f : StreamFacts) :
+    isAppendable f = (if f.seekable = true ∧ f.pos ≠ 0 ∧ f.isStdout = false then
+        (if f.readable then .ok true else .error .value) else .ok false) := by
+  obtain ⟨s, p, o, r⟩ := f
+  cases s <;> cases o <;> cases r <;> by_cases hp : p = 0 <;> simp [isAppendable, hp]
